@@ -81,6 +81,21 @@ theorem sol_decode_sound (addr : List Char) (k : Bytes) (hd : solDecode addr = .
 `addr.flatMap asciiCase.lower` is the decoder's own lower-casing of the input (an all-upper-case
 spelling is accepted by Bech32 by design; mixed case is not). -/
 
+/-- **no second spelling at the bit level**: if the 5-bit symbols of a Bech32 data part regroup into bytes at all, then those bytes
+regroup (with padding) into exactly those symbols — so a payload spelled with a whole extra all-zero symbol, with non-zero padding bits or
+with a dropped symbol is never accepted -/
+theorem regroup_canonical (data conv : List Nat) (hlt : ∀ x ∈ data, x < 32) (h : fromBase32 data = .ok conv) :
+    toBase32 conv = .ok data := by
+  obtain ⟨h1, h2⟩ := regroup_of_fromBase32 hlt h
+  unfold toBase32
+  rw [convertBits_pad 8 5 (by omega) conv (by simpa using h2), h1]
+  rfl
+
+/-- the three refused spellings on a one-byte payload `ff` (canonical symbols `[31, 28]`) -/
+theorem regroup_noncanonical_refused :
+    fromBase32 [31, 28] = .ok [255] ∧ fromBase32 [31, 28, 0] = .error .value ∧ fromBase32 [31, 29] = .error .value ∧
+      fromBase32 [31] = .error .value := by decide
+
 /-- the byte-level codec fact behind the family: the 5→8 regrouping without padding is only
 accepted when the 8→5 regrouping with padding gives the symbols back -/
 theorem bech32_decode_sound (U : CaseOracle) (hrp addr : List Char) (b : Bytes)
